@@ -336,6 +336,7 @@ class PrintrunWriter(BaseWriter):
             self._logger.debug("Device message: %s", message)
 
             if lower_message.startswith(SUCCESS_PREFIXES):
+                self._parse_message(message) # e.g. "ok T:210.0 /210.0"
                 self._ack_event.set()
                 return
             elif lower_message.startswith(ERROR_PREFIXES):
